@@ -39,7 +39,8 @@ def jsonSweepLine (toks : Array String) : List Msg :=
         -- the reader's spec `readJsonCfgS` applied to the bytes written must agree (`C14EndToEnd.readjson_tojson_partial`)
         let f := sweepFrame v N n
         let second : List Msg :=
-          if n == 0 then [] else
+          -- (exact-arithmetic number parsing of every token: only for texts of moderate size)
+          if n == 0 || out.length > 3000 then [] else
           let r2 : Res := match Json.parse out with
             | some doc => readJsonCfgS pnumS doc f.names []
             | none => .err
